@@ -302,6 +302,18 @@ def accumulation_rule(ctx, rule: str, label: str, fn, keep=None):
                 n += 1
                 if not mentions(p.retval, lambda x, t=e.data[0]: x == t):
                     lost.setdefault(getattr(e.node, 'lineno', 0), e)
+    if n == 0 and not lost:
+        # no statement loop: a total built by sum(... for ...) / torch.stack([...]).sum()
+        # accumulates by construction
+        comp_sum = any(p.retval is not None and mentions(
+            p.retval, lambda x: x[0] == 'call' and x[2] and
+            (is_call(x, 'builtins.sum', 'torch.sum', 'torch.stack') or
+             (method_call(x) is not None and method_call(x)[1] == 'sum')) and
+            mentions(x, lambda y: y[0] == 'comp')) for p in ps)
+        if comp_sum:
+            ctx.ob(rule, f'{label} accumulates every contribution', True,
+                   'the total is a sum over a comprehension of the per-layer costs', where(fn))
+            return
     ctx.ob(rule, f'{label} accumulates every contribution', not lost and n > 0,
            f'{len(contrib)} contributing call site(s); each contribution of each of two generic '
            f'iterations is part of the returned total' if not lost and n > 0 else
